@@ -148,23 +148,38 @@ static bool code_allowed(const jm::Fault& f, int code) {
   }
 }
 
-// A text may contain an overflowing number AND be structurally broken (typically: also truncated).  The code then
-// names "the fault class" whichever of the two it names: the parser is entitled to notice the structural fault without
-// having reached the number (its node budget is sized from the text length, so running out of it proves that the
-// text is not valid).  Decided by the reference itself: every overflowing number token is replaced by 0 and the text is
-// judged again; a structural code is accepted only if the reference then finds a structural fault.
-static vf::Counter c_two_faults("invalid:overflowing-number-and-structural-fault(either code accepted)");
-static bool structural_fault_besides_overflow(const std::string& text, const jm::RefResult& ref, int code) {
-  if (ref.f.cls != jm::Fault::Infinity || (code != kParseErrorInvalidChar && code != kParseErrorEof)) return false;
-  std::string t = text;
-  jm::RefResult rr = ref;
-  for (int guard = 0; guard < 64 && !rr.ok && rr.f.cls == jm::Fault::Infinity; guard++) {
-    size_t b = rr.f.pos, e = b;
-    while (e < t.size() && (isdigit((unsigned char)t[e]) || t[e] == '-' || t[e] == '+' || t[e] == '.' || t[e] == 'e' || t[e] == 'E')) e++;
-    if (e == b) return false;
-    t.replace(b, e - b, "0");
-    rr = jm::ref_parse(t);
+// A text may contain a faulty token (an overflowing number, a string literal with a raw control byte or a bad escape)
+// AND be structurally broken (typically: also truncated).  The code then names "the fault class" whichever of the two
+// it names: the parser is entitled to notice the structural fault without having looked into the token (its node
+// budget is sized from the text length, so running out of it on the way proves that the text is not valid).  Decided
+// by the reference itself on the text's skeleton: every terminated string literal is replaced by "" and every number
+// token by 0; a structural code is accepted only if the reference finds a structural fault in the skeleton.
+static vf::Counter c_two_faults("invalid:faulty-token-and-structural-fault(either code accepted)");
+static bool structural_fault_besides_token_fault(const std::string& text, const jm::RefResult& ref, int code) {
+  if ((ref.f.cls != jm::Fault::Infinity && ref.f.cls != jm::Fault::String) || (code != kParseErrorInvalidChar && code != kParseErrorEof)) return false;
+  std::string sk;
+  for (size_t i = 0; i < text.size();) {
+    unsigned char c = (unsigned char)text[i];
+    if (c == '"') {
+      size_t k = i + 1;
+      while (k < text.size() && text[k] != '"') k += (text[k] == '\\' && k + 1 < text.size()) ? 2 : 1;
+      if (k >= text.size()) return false;  // unterminated literal: the String fault itself is the structural one
+      sk += "\"\"";
+      i = k + 1;
+    } else if (isdigit(c) || c == '-') {
+      size_t k = i;
+      while (k < text.size() && (isdigit((unsigned char)text[k]) || text[k] == '-' || text[k] == '+' || text[k] == '.' || text[k] == 'e' || text[k] == 'E')) k++;
+      // only a token the reference accepts as a number is neutralised; anything else stays and is a structural fault
+      jm::RefResult nr = jm::ref_parse(text.substr(i, k - i));
+      bool number = nr.ok || nr.f.cls == jm::Fault::Infinity;
+      sk += number ? "0" : text.substr(i, k - i);
+      i = k;
+    } else {
+      sk += (char)c;
+      i++;
+    }
   }
+  jm::RefResult rr = jm::ref_parse(sk);
   if (!rr.ok && rr.f.cls == jm::Fault::Structural) {
     c_two_faults.add();
     return true;
@@ -202,7 +217,7 @@ static void judge_parse(Doc& d, const std::string& text, const jm::RefResult& re
                       ctx + ": offset " + std::to_string(off) + " > length " + std::to_string(text.size()) + " text=" + vf::printable(text));
       if (code <= 0 || code > kParseErrorInvalidUTF8) {
         vf::violation("failure-code-not-parse-error", ctx + ": code " + std::to_string(code) + " text=" + vf::printable(text));
-      } else if (!code_allowed(ref.f, code) && !structural_fault_besides_overflow(text, ref, code)) {
+      } else if (!code_allowed(ref.f, code) && !structural_fault_besides_token_fault(text, ref, code)) {
         vf::violation("failure-code-class:" + fault_class(ref.f) + "->" + code_name(code),
                       ctx + ": reference fault " + fault_class(ref.f) + " at " + std::to_string(ref.f.pos) + " reported as " +
                           code_name(code) + " text=" + vf::printable(text));
@@ -696,6 +711,32 @@ int main(int argc, char** argv) {
                        one_input(t + v + "," + v + tl);
                      }
                }, false});
+  // a complete number token directly followed by more number-like bytes (a second fraction, a second exponent): the
+  // fault is the stray byte after the token, whatever a number routine that reads on would make of the longer lexeme
+  S.push_back({"number_followed_by_number_like_garbage", 3000, 100000, [](uint64_t, vf::Rng& r) {
+                 std::string t = r.coin() ? "-" : "";
+                 size_t ni = r.range(1, 25);
+                 t += (char)('1' + r.below(9));
+                 for (size_t k = 1; k < ni; k++) t += (char)('0' + r.below(10));
+                 if (r.below(4)) {
+                   t += ".";
+                   for (size_t k = r.range(1, 30); k; k--) t += (char)('0' + r.below(10));
+                 }
+                 if (r.below(3) == 0) t += (r.coin() ? "e" : "E") + std::string(r.coin() ? "-" : "") + std::to_string(r.below(30));
+                 // garbage that continues the lexeme
+                 switch (r.below(5)) {
+                   case 0: t += "." + std::to_string(r.below(1000000)) + "e" + std::to_string(r.range(300, 4000000)); break;
+                   case 1: t += ".5"; break;
+                   case 2: t += "e" + std::to_string(r.range(300, 5000)); break;  // a second exponent, or a plain overflow when there was none
+                   case 3: t += ".e400"; break;
+                   default: t += "." + std::to_string(r.below(100)) + "." + std::to_string(r.below(100)) + "E+999"; break;
+                 }
+                 switch (r.below(3)) {
+                   case 0: one_input(t); break;
+                   case 1: one_input("[" + t + "]"); break;
+                   default: one_input("{\"k\":" + t + "}"); break;
+                 }
+               }});
   // texts with the maximal number of values per byte (one-character scalars, no blanks, empty keys): the parser's node stack
   // is sized from the text length, so these are the valid texts that fill it to the brim; every length 2..400
   S.push_back({"densest_valid_texts", 400, 400, [](uint64_t i, vf::Rng& r) {
